@@ -16,7 +16,8 @@ ASSUMPTIONS = ["oracle: Python <= on float64 between every recorded argument of 
                "1e20 entries are treated as ordinary (never binding) bounds, as documented",
                "an exception escaping solve is not judged here (C07/C08 do); the calls made before it still are"]
 
-PROF = sc.make_prof(bounds=["box", "box", "lower", "upper", "mixed", "scaled", "scaled"], reg=0.1, zero_resid=0.05)
+PROF = sc.make_prof(bounds=["box", "box", "lower", "upper", "mixed", "scaled", "scaled"], reg=0.1, zero_resid=0.05,
+                    regression_bias=0.12)     # every code path that produces evaluation points gets its share of cases
 
 
 def run(case):
